@@ -1,3 +1,4 @@
+mod bencode;
 mod common;
 mod http_sys;
 mod props;
@@ -17,10 +18,14 @@ fn main() {
 fn dispatch(args: &common::Args) {
     match args.id.as_str() {
         "C01" => props::c01::main(args),
+        "C05" => props::c05::main(args),
         "C07" => props::c07::main(args),
         "C08" => props::c08::main(args),
         "C09" => props::c09::main(args),
         "C10" => props::c10::main(args),
+        "C13" => props::c13::main(args),
+        "C14" => props::c14::main(args),
+        "C15" => props::c15::main(args),
         "C20" => props::c20::main(args),
         other => common::machinery_failure(&format!("unknown property id {}", other)),
     }
